@@ -264,67 +264,91 @@ fn frontier_models(v: &mut Vec<Model>) {
 // the holes filled in every order. After every completion the frontier must equal the first
 // uncompleted index, and the validation claims handed out afterwards must all lie below it.
 
-fn frontier_seq_case(n: usize, order: &[usize]) {
-    let order = order.to_vec();
-    crate::ITERATIONS.fetch_add(1, std::sync::atomic::Ordering::Relaxed);
+/// Runs a batch of completion orders inside one (single-threaded) loom execution; every order on
+/// a fresh `SchedulerContext`.
+fn frontier_seq_batch(n: usize, orders: Vec<Vec<usize>>) {
+    if orders.is_empty() {
+        return;
+    }
+    crate::ITERATIONS.fetch_add(orders.len() as u64, std::sync::atomic::Ordering::Relaxed);
+    crate::OPLOG.lock().unwrap().clear();
+    for o in &orders {
+        let desc = if o.windows(2).all(|w| w[1] == w[0] + 1) { format!("ascending 0..{}", o.len()) } else { format!("len {} first {:?} last {:?}", o.len(), &o[..o.len().min(4)], &o[o.len().saturating_sub(4)..]) };
+        crate::oplog(format!("n={n} order: {desc}"));
+    }
     let mut b = loom::model::Builder::new();
     b.max_branches = 1_000_000;
+    b.max_threads = 2;
     b.log = false;
     b.check(move || {
-        let ctx = SchedulerContext::new(n);
-        let mut done = vec![false; n];
-        for &i in &order {
-            done[i] = true;
-            ctx.executed(i);
-            let first = done.iter().position(|d| !d).unwrap_or(n);
-            let f = ctx.execution_frontier();
-            assert_eq!(
-                f, first,
-                "frontier after completing {:?}.. of {n}: got {f}, first transaction without a completed execution is {first}",
-                &order[..order.len().min(6)]
-            );
+        for order in &orders {
+            let ctx = SchedulerContext::new(n);
+            let mut done = vec![false; n];
+            let mut first = 0;
+            for &i in order {
+                done[i] = true;
+                ctx.executed(i);
+                while first < n && done[first] {
+                    first += 1;
+                }
+                let f = ctx.execution_frontier();
+                assert_eq!(
+                    f, first,
+                    "frontier after completing {:?}.. of {n}: got {f}, first transaction without a completed execution is {first}",
+                    &order[..order.len().min(6)]
+                );
+            }
+            let mut claims = 0;
+            while let Some(i) = ctx.next_validation_idx(n) {
+                assert!(i < first, "validation claim {i} at or beyond the first unexecuted transaction {first}");
+                claims += 1;
+                assert!(claims <= n);
+            }
+            assert_eq!(claims, first, "every executed transaction below the frontier is offered for validation once");
         }
-        let first = done.iter().position(|d| !d).unwrap_or(n);
-        let mut claims = 0;
-        while let Some(i) = ctx.next_validation_idx(n) {
-            assert!(i < first, "validation claim {i} at or beyond the first unexecuted transaction {first}");
-            claims += 1;
-            assert!(claims <= n);
-        }
-        assert_eq!(claims, first, "every executed transaction below the frontier is offered for validation once");
     });
 }
 
 fn frontier_seq_models(v: &mut Vec<Model>) {
-    for n in [3usize, 9, 64, 65, 66, 130, 192, 200] {
+    for n in [3usize, 9, 65, 130, 200] {
         v.push(Model {
             id: format!("c15-frontier-seq/n{n}"),
             property: "C15",
             seq: true,
             threads: 1,
             describe: format!(
-                "sequential enumeration over {n} transactions: every prefix, every hole set of size <= 1 (<= 2 next to a multiple of 64; all permutations for n = 3), ascending and descending completion, every fill order; frontier = first uncompleted index after every completion"
+                "sequential enumeration over {n} transactions (all permutations for n = 3; n = 9: every prefix and every hole set of size <= 2; larger n: prefixes ending next to a multiple of 64 or to the ends, holes next to the ends of the prefix and to multiples of 64, pairs of them), ascending and descending completion, every fill order; frontier = first uncompleted index after every completion"
             ),
             run: Box::new(move || {
+                let mut batch: Vec<Vec<usize>> = Vec::new();
                 if n <= 3 {
-                    // all permutations
                     let mut idx: Vec<usize> = (0..n).collect();
-                    permute(&mut idx, 0, &mut |p| frontier_seq_case(n, p));
+                    permute(&mut idx, 0, &mut |p| batch.push(p.to_vec()));
+                    frontier_seq_batch(n, batch);
                     return;
                 }
                 for k in 1..=n {
+                    if crate::past_deadline() {
+                        crate::mark_incomplete();
+                        break;
+                    }
                     let near = (k % 64 <= 2) || (k % 64 >= 62);
+                    // small ranges: every prefix and every hole; larger ones: prefixes that end next
+                    // to a multiple of 64 or to the ends of the range, holes next to the ends of the
+                    // prefix and to multiples of 64 (everything else has a counterpart in n = 9)
+                    if n > 9 && !(near || k <= 3 || k + 2 >= n || k % 64 == 32) {
+                        continue;
+                    }
                     let mut hole_sets: Vec<Vec<usize>> = vec![vec![]];
                     for a in 0..k {
-                        // single holes: everywhere for small n, around word boundaries and the ends otherwise
-                        if n <= 66 || a < 3 || a + 3 >= k || a % 64 <= 1 || a % 64 >= 62 {
+                        if n <= 9 || a < 3 || a + 3 >= k || a % 64 <= 1 || a % 64 >= 62 {
                             hole_sets.push(vec![a]);
                         }
                     }
-                    if near {
+                    if near || n <= 9 {
                         for a in 0..k {
                             for b in a + 1..k {
-                                let interesting = |x: usize| x < 2 || x + 2 >= k || x % 64 <= 1 || x % 64 >= 62;
+                                let interesting = |x: usize| n <= 9 || x < 2 || x + 2 >= k || x % 64 <= 1 || x % 64 >= 62;
                                 if interesting(a) && interesting(b) {
                                     hole_sets.push(vec![a, b]);
                                 }
@@ -344,11 +368,17 @@ fn frontier_seq_models(v: &mut Vec<Model>) {
                             for fill in fills {
                                 let mut order = base.clone();
                                 order.extend(fill);
-                                frontier_seq_case(n, &order);
+                                // one loom execution per case: loom's object tracking does not
+                                // survive many contexts of this size in one execution
+                                frontier_seq_batch(n, vec![order]);
                             }
                         }
                     }
+                    if batch.len() >= 1 {
+                        frontier_seq_batch(n, std::mem::take(&mut batch));
+                    }
                 }
+                frontier_seq_batch(n, batch);
             }),
         });
     }
